@@ -260,6 +260,8 @@ class CtorGen:
     def overrides(self, st):
         r = self.rng
         cands = [g for g in st["fields"] if g["t"]["k"] in ("bool", "int", "float", "string", "enum", "array", "union")]
+        if self.clean:      # a struct default over an OPTIONAL enum member does not compile in Go (known C10 finding)
+            cands = [g for g in cands if not (g["t"]["k"] == "enum" and not g["req"])]
 
         ov = {}
         chosen = r.sample(cands, min(len(cands), r.randint(1, 2)))
